@@ -160,6 +160,10 @@ def run_verus_property(pid, cfg, tier, seed, clock):
                     obligations.append({"name": name, "text": text})
         for f in contract_fns:
             obligations.append({"name": "%s.body" % f, "text": "callee preconditions, arithmetic overflow, totality of the body"})
+        only = vcfg.get("only")
+        if only:
+            # this property owns only some obligations of the shared Verus unit
+            obligations = [o for o in obligations if o["name"] in only]
         failed_names = set()
         canary_failed = False
         for f_ in fails:
@@ -171,8 +175,10 @@ def run_verus_property(pid, cfg, tier, seed, clock):
                     failed_names.add("%s.body" % f_["fn"])
                 else:
                     failed_names.add(o)
-            if f_["fn"] not in contract_fns:
+            if f_["fn"] not in contract_fns and not only:
                 undecided.append("verus: failure outside the functions under contract: %s in %s" % (f_["message"], f_["fn"]))
+        if only:
+            failed_names = set(n for n in failed_names if n in only)
         if not canary_failed:
             undecided.append("verus: the vacuity canary verified (contradictory preconditions or no obligations generated)")
         n_verified = vr.get("verified", 0)
